@@ -211,7 +211,41 @@ def run(ctx):
                           replay="from edgegraph.structure import Vertex, TwoEndedLink\nfrom edgegraph.traversal import helpers\nclass GV(Vertex):\n    def __repr__(self): raise RuntimeError('not ready')\n    __str__ = __repr__\n"
                                  "class GT(TwoEndedLink):\n    def __repr__(self): raise RuntimeError('not ready')\n    __str__ = __repr__\na, b = GV(), GV()\nl = GT(a, b)\n"
                                  f"print(helpers.neighbors(a, helpers.DIR_SENS_{d}, helpers.LNK_UNKNOWN_{uh}))")
-    res.rule("TABLE", len(derived) + neq + ngr)
+    # ---- the same table with Vertex.NEIGHBOR_CACHING on and a *different* query on the same vertex made just before: what
+    # neighbors(v, d, uh, f) returns is a function of the graph and of its own arguments, not of what was asked earlier
+    nseq = 0
+    flagcls = h.fn("edgegraph.structure.vertex.Vertex")
+    for cls, pos in itertools.product(("DirectedEdge", "UnDirectedEdge", "SymTwo"), POS):
+        for (d1, uh1), (d2, uh2) in itertools.permutations(list(itertools.product(DIRS[:3], UHS)), 2):
+            if d1 != d2 and uh1 != uh2 and not ctx.thorough:
+                continue
+            for filt in (("none", "accept") if ctx.thorough else ("none",)):
+                exp = expected(KINDS[cls], pos, d2, uh2, filt)
+                if exp is None:
+                    continue
+                h.reset()
+                try:
+                    a, links, others = build(h, [(cls, pos)])
+                    flagcls.dict["NEIGHBOR_CACHING"] = True
+                    cb = cbval(mkfilter(filt, h=h))
+                    h.call(fn, a, C[d1], C[uh1], cb)
+                    out = h.call(fn, a, C[d2], C[uh2], cb)
+                except Unknown as u:
+                    res.ob(False)
+                    res.undecide(f"{FN} row {cls},{pos},{d2},{uh2},{filt} after a query {d1},{uh1} with caching on: {u}")
+                    continue
+                finally:
+                    flagcls.dict["NEIGHBOR_CACHING"] = False
+                nseq += 1
+                got = classify(out, others[0], a)
+                ok = got in exp if isinstance(exp, set) else got == exp
+                res.ob(ok, sig=("after", cls, pos, d1, uh1, d2, uh2, filt))
+                if not ok:
+                    res.violation("TABLE", FN, f"kind={KINDS[cls]},dir={d2},unknown={uh2},filter={filt},caching-on,after-query={d1}/{uh1}",
+                                  f"with Vertex.NEIGHBOR_CACHING on, neighbors(v, {d2}, {uh2}) asked right after neighbors(v, {d1}, {uh1}) contributes {got!r} for a {KINDS[cls]}-kind link (queried vertex is {pos}) where the statement requires {exp!r}",
+                                  replay=replay_snippet([(cls, pos)], d2, uh2, filt).replace("from edgegraph.traversal import helpers", "from edgegraph.traversal import helpers\nVertex.NEIGHBOR_CACHING = True").replace("print(", f"helpers.neighbors(a, helpers.DIR_SENS_{d1}, helpers.LNK_UNKNOWN_{uh1}); print(", 1))
+    derived_n = nseq
+    res.rule("TABLE", len(derived) + neq + ngr + derived_n)
     # ---- duality (derived table maps onto itself under FORWARD<->BACKWARD, v1<->v2)
     swap = {"v1": "v2", "v2": "v1", "both": "both"}
     nd = 0
